@@ -6,7 +6,7 @@ TARGETS = {
 PROPS = {
     "C04": dict(
         targets=["c04_interp"],
-        shard_mult={"quick": 2},
+        shard_mult={"quick": 2, "thorough": 3},
         level="exploration",
         rule="(i) exhaustive: every symmetric sparsity pattern on 1..5 nodes (1..6 thorough) and every pattern, structurally non-symmetric ones included, on 1..3 nodes (1..4 thorough), "
              "each with the value classes {M-matrix, mixed sign, all-positive off-diagonals, zero row sums, zero row sums with mixed signs} (small integers / dyadic values: strength ties and row sums are exact) and eps_strong in {0.08, 0.5}; on each the whole "
